@@ -29,6 +29,7 @@ CFG = {'assumptions': ["every position, size and n stays below 2^31 - 64 (Go's i
          'integers single and in slices of 0..5 (boundaries, single bits, complements, random), on Of(...) bitmaps, on '
          'non-integer types; Rank64/Rank128/NextOne/PrevOne on Of(ps,n) and on Builder.Words (i at / next to a set position, on word '
          'edges, random; e = end, = i, i+1..i+65, random); OfMany against Of(shifted concatenation, sum of sizes) with positions >= size in any '
-         'segment (non-ascending concatenations, panics): only the agreement of the two calls is observed. Non-trivial: '
+         'segment (non-ascending concatenations, panics): only the agreement of the two calls is observed; exhaustive: Get/SafeGet at every i in [-130, 64*len+130] on 6 small bitmaps, '
+         'every Builder history of 1..2 (thorough 3) calls over a 10-call alphabet, every OfMany list of 0..3 segments over a 7-segment alphabet. Non-trivial: '
          'non-empty position list / bitmap with a 1-bit / probed word neither 0 nor all-ones / >1 segment with a '
          'position / >1 call; distinct = distinct (op,args)'}
